@@ -122,7 +122,8 @@ fn selections(rng: &mut Rng, text: &str) -> Vec<(&'static str, usize, usize)> {
 
 #[derive(Debug, Clone)]
 struct Viol {
-    signature: String,
+    class: String,
+    construct: String,
     what: String,
 }
 
@@ -134,7 +135,7 @@ fn check(text: &str, sel: (usize, usize), cfg: &LuaFormatConfig) -> (Vec<Viol>, 
     let r = match guarded(|| reformat_range(&src, tr(sel.0, sel.1), cfg)) {
         Ok(r) => r,
         Err(e) => {
-            out.push(Viol { signature: "range-format-panic".into(), what: format!("reformat_range panicked: {e}") });
+            out.push(Viol { class: "range-format-panic".into(), construct: String::new(), what: format!("reformat_range panicked: {e}") });
             return (out, valid, false);
         }
     };
@@ -142,12 +143,12 @@ fn check(text: &str, sel: (usize, usize), cfg: &LuaFormatConfig) -> (Vec<Viol>, 
         return (out, valid, false);
     };
     if !valid {
-        out.push(Viol { signature: "errors-range-formatted".into(), what: "document with syntax errors got a range edit".into() });
+        out.push(Viol { class: "errors-range-formatted".into(), construct: String::new(), what: "document with syntax errors got a range edit".into() });
         return (out, valid, true);
     }
     let (s, e) = (u32::from(res.replace_range.start()) as usize, u32::from(res.replace_range.end()) as usize);
     if !(s <= e && e <= text.len() && text.is_char_boundary(s) && text.is_char_boundary(e)) {
-        out.push(Viol { signature: "replace-range-invalid".into(), what: format!("replace range {s}..{e} is not a range of the document (len {})", text.len()) });
+        out.push(Viol { class: "replace-range-invalid".into(), construct: String::new(), what: format!("replace range {s}..{e} is not a range of the document (len {})", text.len()) });
         return (out, valid, true);
     }
     // the replaced region covers the selected code: every code/comment token the clamped selection intersects
@@ -161,14 +162,15 @@ fn check(text: &str, sel: (usize, usize), cfg: &LuaFormatConfig) -> (Vec<Viol>, 
         let hit = if ca == cb { ta < ca && ca < tb } else { ta < cb && ca < tb };
         if hit && !(s <= ta && tb <= e) {
             out.push(Viol {
-                signature: "selection-not-covered".into(),
+                class: "selection-not-covered".into(),
+                construct: format!("{:?}", t.kind().to_token()),
                 what: format!("token {:?} at {ta}..{tb} intersects the selection {ca}..{cb} but the replaced region is {s}..{e}", t.text()),
             });
             break;
         }
     }
     let spliced = format!("{}{}{}", &text[..s], res.text, &text[e..]);
-    if let Some((class, what)) = same_code(text, &spliced, cfg) {
+    if let Some((class, what, construct)) = same_code(text, &spliced, cfg) {
         // is it the formatter itself (C05) or the range machinery? format the whole document
         let whole = guarded(|| emmylua_formatter::reformat_lua_code(&src, cfg)).ok();
         let inherited = match &whole {
@@ -177,7 +179,8 @@ fn check(text: &str, sel: (usize, usize), cfg: &LuaFormatConfig) -> (Vec<Viol>, 
         };
         let reindent = class.starts_with("reindent-inside-token");
         out.push(Viol {
-            signature: if inherited && !reindent { format!("formatter-defect:{class}") } else { format!("range-{class}") },
+            class: if inherited && !reindent { format!("formatter-defect:{class}") } else { format!("range-{class}") },
+            construct,
             what: format!("{what} (after applying the range edit {s}..{e})"),
         });
     }
@@ -185,12 +188,14 @@ fn check(text: &str, sel: (usize, usize), cfg: &LuaFormatConfig) -> (Vec<Viol>, 
 }
 
 /// None when `after` is the same code as `before` (tokens up to the enabled normalisations, comment text up to blanks)
-fn same_code(before: &str, after: &str, cfg: &LuaFormatConfig) -> Option<(String, String)> {
+fn same_code(before: &str, after: &str, cfg: &LuaFormatConfig) -> Option<(String, String, String)> {
     let tree = parse(before);
     let tree2 = parse(after);
     if tree2.has_syntax_errors() {
-        let msg = tree2.get_errors().iter().find(|e| e.kind == emmylua_parser::LuaParseErrorKind::SyntaxError).map(|e| e.message.clone()).unwrap_or_default();
-        return Some(("output-syntax-error".into(), format!("the result has a syntax error: {msg}")));
+        let e = tree2.get_errors().iter().find(|e| e.kind == emmylua_parser::LuaParseErrorKind::SyntaxError);
+        let msg = e.map(|e| e.message.clone()).unwrap_or_default();
+        let ctx = e.map(|e| construct_of(&context_at(&tree2, u32::from(e.range.start()) as usize))).unwrap_or_default();
+        return Some(("output-syntax-error".into(), format!("the result has a syntax error: {msg}"), ctx));
     }
     let flags = NormFlags::of(cfg);
     let c1 = canon(&tree, &flags);
@@ -206,12 +211,25 @@ fn same_code(before: &str, after: &str, cfg: &LuaFormatConfig) -> Option<(String
             _ => false,
         };
         let class = if reindent { format!("reindent-inside-token:{kind}") } else { "code-token".to_string() };
-        return Some((class, format!("code token #{i} differs: source {:?}, result {:?}", a.map(|t| t.text.clone()), b.map(|t| t.text.clone()))));
+        let around: Vec<String> = (i.saturating_sub(1)..=i).filter_map(|j| c1.tokens.get(j).map(|t| t.kind.clone())).collect();
+        let construct = if reindent { String::new() } else { around.join(",") };
+        return Some((class, format!("code token #{i} differs: source {:?}, result {:?}", a.map(|t| t.text.clone()), b.map(|t| t.text.clone())), construct));
     }
     let t1: String = c1.comments.iter().map(|c| c.text_nb.as_str()).collect();
     let t2: String = c2.comments.iter().map(|c| c.text_nb.as_str()).collect();
     if t1 != t2 {
-        return Some(("comment-text".into(), "comment text differs".into()));
+        let k = t1.chars().zip(t2.chars()).take_while(|(x, y)| x == y).count();
+        let mut kk = k;
+        let mut cons = String::new();
+        for c in &c1.comments {
+            let n = c.text_nb.chars().count();
+            if kk < n {
+                cons = construct_of(&nonblank_context(&c.raw, kk));
+                break;
+            }
+            kk -= n;
+        }
+        return Some(("comment-text".into(), "comment text differs".into(), cons));
     }
     // long comments are single tokens: a change of their continuation lines is a change of the token
     for (a, b) in c1.comments.iter().zip(c2.comments.iter()) {
@@ -219,54 +237,36 @@ fn same_code(before: &str, after: &str, cfg: &LuaFormatConfig) -> Option<(String
             let la: Vec<&str> = a.raw.lines().skip(1).collect();
             let lb: Vec<&str> = b.raw.lines().skip(1).collect();
             if la != lb {
-                return Some(("reindent-inside-token:long-comment".into(), format!("a long comment was re-indented inside: {:?} became {:?}", a.raw, b.raw)));
+                return Some(("reindent-inside-token:long-comment".into(), format!("a long comment was re-indented inside: {:?} became {:?}", a.raw, b.raw), String::new()));
             }
         }
     }
     None
 }
 
-fn ddmin(mut pieces: Vec<String>, still: &dyn Fn(&[String]) -> bool, budget: &mut usize) -> Vec<String> {
-    let mut chunk = (pieces.len() / 2).max(1);
-    loop {
-        let mut i = 0;
-        let mut progressed = false;
-        while i < pieces.len() && *budget > 0 {
-            let end = (i + chunk).min(pieces.len());
-            let mut cand = pieces.clone();
-            cand.drain(i..end);
-            *budget -= 1;
-            if !cand.is_empty() && still(&cand) {
-                pieces = cand;
-                progressed = true;
-            } else {
-                i += chunk;
-            }
-        }
-        if *budget == 0 || (chunk == 1 && !progressed) {
-            break;
-        }
-        if !progressed {
-            chunk = (chunk / 2).max(1);
-        }
-    }
-    pieces
+fn classes(text: &str, sel: (usize, usize), cfgj: &Value) -> Vec<(String, String)> {
+    check(text, sel, &cfg_from_json(cfgj)).0.into_iter().map(|v| (v.class, v.construct)).collect()
+}
+
+/// minimal set of non-default options (or the construct, under the default configuration) + signature
+fn narrow(text: &str, sel: (usize, usize), cfgj: &Value, v: &Viol) -> (Value, String) {
+    narrow_signature(cfgj, &v.class, &|c: &Value| classes(text, sel, c))
 }
 
 /// shrink lines that lie completely after the selection (selection offsets stay valid)
-fn shrink(text: &str, sel: (usize, usize), cfg: &LuaFormatConfig, sig: &str) -> String {
+fn shrink(text: &str, sel: (usize, usize), cfgj: &Value, class: &str) -> String {
     let cut = sel.1.min(text.len());
     let cut = (cut..=text.len()).find(|i| text.is_char_boundary(*i)).unwrap_or(text.len());
     let (head, tail) = text.split_at(cut);
     let lines: Vec<String> = tail.split_inclusive('\n').map(|s| s.to_string()).collect();
     let still = |ls: &[String]| -> bool {
         let t = format!("{}{}", head, ls.concat());
-        check(&t, sel, cfg).0.iter().any(|v| v.signature == sig)
+        classes(&t, sel, cfgj).iter().any(|(k, _)| k == class)
     };
     let mut budget = 300usize;
-    let kept = if lines.len() > 1 { ddmin(lines, &still, &mut budget) } else { lines };
+    let kept = if lines.len() > 1 { ddmin(lines, &still, &mut budget, true) } else { lines };
     let t = format!("{}{}", head, kept.concat());
-    if check(&t, sel, cfg).0.iter().any(|v| v.signature == sig) { t } else { text.to_string() }
+    if classes(&t, sel, cfgj).iter().any(|(k, _)| k == class) { t } else { text.to_string() }
 }
 
 fn main() {
@@ -371,15 +371,17 @@ fn main() {
                 let (viols, _, _) = check(t, (a, b), &cfg);
                 for vi in viols {
                     nviol += 1;
-                    if reported.insert(vi.signature.clone()) {
-                        println!("{}", json!({"signature": vi.signature, "what": vi.what, "class": "corpus", "name": name, "text": t, "sel": [a, b], "cfg": cfgj}));
+                    let (cfgmin, sig) = narrow(t, (a, b), &cfgj, &vi);
+                    if reported.insert(sig.clone()) {
+                        println!("{}", json!({"signature": sig, "what": vi.what, "class": "corpus", "name": name, "text": t, "sel": [a, b], "cfg": cfgmin}));
                     }
                 }
             }
             let ncorpus = inputs.len();
             while inputs.len() < n + ncorpus {
                 let i = inputs.len();
-                let cfg = gen_cfg(&mut rng);
+                // at least half of the documents run under the default configuration
+                let cfg = if rng.chance(1, 2) { json!({}) } else { gen_cfg(&mut rng) };
                 let text = match i % 6 {
                     0 | 1 if !stds.is_empty() => {
                         let (_, t) = &stds[rng.below(stds.len())];
@@ -411,18 +413,19 @@ fn main() {
                     }
                     for v in viols {
                         nviol += 1;
-                        if !reported.insert(v.signature.clone()) {
+                        let (cfgmin, sig) = narrow(text, (a, b), cfgj, &v);
+                        if !reported.insert(sig.clone()) {
                             continue;
                         }
-                        let small = shrink(text, (a, b), &cfg, &v.signature);
-                        let what = check(&small, (a, b), &cfg).0.iter().find(|x| x.signature == v.signature).map(|x| x.what.clone()).unwrap_or(v.what.clone());
-                        println!("{}", json!({"signature": v.signature, "what": what, "class": class, "name": name, "text": small, "sel": [a, b], "cfg": cfgj}));
+                        let small = shrink(text, (a, b), &cfgmin, &v.class);
+                        let what = check(&small, (a, b), &cfg_from_json(&cfgmin)).0.iter().find(|x| x.class == v.class).map(|x| x.what.clone()).unwrap_or(v.what.clone());
+                        println!("{}", json!({"signature": sig, "what": what, "class": class, "name": name, "text": small, "sel": [a, b], "cfg": cfgmin}));
                     }
                 }
             }
             println!(
                 "{}",
-                json!({"summary": {"cases": cases, "documents": docs, "edits_returned": edits, "distinct_nontrivial": distinct.len(), "violating_cases": nviol, "by_selection_class": dist}})
+                json!({"summary": {"cases": cases, "documents": docs, "default_configuration_documents": inputs.iter().filter(|(_, _, c)| nondefault_opts(c).is_empty()).count(), "distinct_signatures": reported.len(), "edits_returned": edits, "distinct_nontrivial": distinct.len(), "violating_cases": nviol, "by_selection_class": dist}})
             );
         }
         "one" => {
@@ -439,7 +442,8 @@ fn main() {
                 Err(e) => println!("{}", json!({"panic": e})),
             }
             for v in check(&text, sel, &cfg).0 {
-                println!("{}", json!({"signature": v.signature, "what": v.what, "text": text, "sel": [sel.0, sel.1], "cfg": cfgj}));
+                let (cfgmin, sig) = narrow(&text, sel, &cfgj, &v);
+                println!("{}", json!({"signature": sig, "what": v.what, "text": text, "sel": [sel.0, sel.1], "cfg": cfgmin}));
             }
         }
         _ => {
